@@ -62,24 +62,17 @@ fn run(before_first: bool, flag_before: bool, flag_after: bool) -> Body<'static>
     body
 }
 
-fn same_lists(x: &Body, y: &Body) {
-    let mut i = 0;
-    while i < 1 {
-        let (a, b) = (&x.instructions[i].instr_flag, &y.instructions[i].instr_flag);
-        assert!(a.before.instrs.len() == b.before.instrs.len() && a.after.instrs.len() == b.after.instrs.len(), "C04: the amount of code resolved at an `end` depends on the iteration order of a HashMap");
-        let mut j = 0;
-        while j < a.before.instrs.len() {
-            assert!(code(&a.before.instrs[j]) == code(&b.before.instrs[j]) && code(&a.before.instrs[j]) != 0, "C04: the before-code resolved at an `end` depends on the iteration order of a HashMap");
-            j += 1;
+/// number of operators with code `c` in a list / any operator outside `allowed`
+fn count(l: &Vec<Operator>, c: u8) -> usize {
+    let mut n = 0;
+    let mut j = 0;
+    while j < l.len() {
+        if code(&l[j]) == c {
+            n += 1;
         }
-        let mut j = 0;
-        while j < a.after.instrs.len() {
-            assert!(code(&a.after.instrs[j]) == code(&b.after.instrs[j]) && code(&a.after.instrs[j]) != 0, "C04: the after-code resolved at an `end` depends on the iteration order of a HashMap");
-            j += 1;
-        }
-        assert!(a.alternate.is_none() && b.alternate.is_none() && a.block_alt.is_none() && b.block_alt.is_none(), "C04: resolution created an alternate");
-        i += 1;
+        j += 1;
     }
+    n
 }
 
 macro_rules! oh {
@@ -88,16 +81,26 @@ macro_rules! oh {
         #[kani::stub(alloc::fmt::format, crate::kh::no_format)]
         #[kani::unwind(10)]
         fn $name() {
-            let x = run(true, $fb, $fa);
-            let y = run(false, $fb, $fa);
-            same_lists(&x, &y);
-            kani::cover!(x.instructions[0].instr_flag.before.instrs.len() >= 1 && x.instructions[0].instr_flag.after.instrs.len() >= 1, "both keys resolved code");
+            // the order in which the map hands out its two entries is the symbolic input
+            let before_first: bool = kani::any();
+            let x = run(before_first, $fb, $fa);
+            let f = &x.instructions[0].instr_flag;
+            // whatever the order: the Before entry's bodies (Nop; flagged: Drop) are in the before-list exactly once
+            // and nowhere else, the After entry's bodies (Unreachable; flagged: Return) in the after-list exactly once
+            assert!(count(&f.before.instrs, 1) == 1 && count(&f.before.instrs, 2) == ($fb as usize), "C04: the before-code resolved at an `end` depends on the iteration order of a HashMap");
+            assert!(count(&f.before.instrs, 3) == 0 && count(&f.before.instrs, 8) == 0, "C04: after-code landed in the before-list under one iteration order");
+            assert!(count(&f.after.instrs, 3) == 1 && count(&f.after.instrs, 8) == ($fa as usize), "C04: the after-code resolved at an `end` depends on the iteration order of a HashMap");
+            assert!(count(&f.after.instrs, 1) == 0 && count(&f.after.instrs, 2) == 0, "C04: before-code landed in the after-list under one iteration order");
+            // and the amount of code does not depend on the order (unflagged: exactly the body)
+            assert!(($fb || f.before.instrs.len() == 1) && ($fa || f.after.instrs.len() == 1), "C04: the amount of code resolved at an `end` depends on the iteration order of a HashMap");
+            assert!(f.alternate.is_none() && f.block_alt.is_none(), "C04: resolution created an alternate");
+            kani::cover!(before_first, "Before entry first");
+            kani::cover!(!before_first, "After entry first");
             std::mem::forget(x);
-            std::mem::forget(y);
         }
     };
 }
-/// C04: resolving the Before entry and the After entry of a resolution map commute (unflagged bodies).
+/// C04: resolving the Before entry and the After entry of a resolution map in either order (unflagged bodies).
 // @harness props=C04 tier=quick timeout=2400 weight=2
 oh!(order_resolve_bodies_commute_plain, false, false);
 /// C04: the same with a flagged (branch-taken guarded) body under each key.
